@@ -573,20 +573,58 @@ func c10StoredScope(c *core.Ctx, acqAT, acqT *ssa.Function) {
 					continue
 				}
 				n++
-				// the token response the stored token string comes from
-				var tok ssa.Value
-				sliceHas(tokenV, func(v ssa.Value) bool {
-					if b2, fld, isF := facts.FieldOf(v); isF && (fld == "Token" || fld == "AccessToken") && tok == nil {
-						tok = facts.Resolve(b2)
+				// the (token string, scope) pairs that can be stored here: when both are
+				// parameters of a private helper (`cacheAccessToken(scope, token, …)`), what
+				// each call site passes
+				type pair struct{ tokenV, scopeV ssa.Value }
+				pairs := []pair{{tokenV, scopeV}}
+				for d := 0; d < 2; d++ {
+					var next []pair
+					for _, pr := range pairs {
+						tp, ok1 := facts.ResolveFree(pr.tokenV).(*ssa.Parameter)
+						sp, ok2 := facts.ResolveFree(pr.scopeV).(*ssa.Parameter)
+						if !ok1 || !ok2 || tp.Parent() != sp.Parent() || len(privateCallSites(tp.Parent())) == 0 {
+							next = append(next, pr)
+							continue
+						}
+						h := tp.Parent()
+						ti, si := -1, -1
+						for i, q := range h.Params {
+							if q == tp {
+								ti = i
+							}
+							if q == sp {
+								si = i
+							}
+						}
+						for _, site := range privateCallSites(h) {
+							a := site.Common().Args
+							if ti >= 0 && si >= 0 && ti < len(a) && si < len(a) {
+								next = append(next, pair{a[ti], a[si]})
+							}
+						}
 					}
-					return false
-				})
-				if tok == nil {
-					c.Fail("C10.R4", "acquireAccessToken/stored-token", al.Pos(), "the cached token string does not come from the token server's response")
-					continue
+					pairs = next
 				}
-				ok, why := tokenScopePaired(tok, facts.Resolve(scopeV), acqT, 4)
-				c.Check(ok, "C10.R4", "acquireAccessToken/stored-scope", al.Pos(), "each cached token is recorded under the scope that was requested for it", why)
+				okAll, whyAll := true, ""
+				for _, pr := range pairs {
+					// the token response the stored token string comes from
+					var tok ssa.Value
+					sliceHas(pr.tokenV, func(v ssa.Value) bool {
+						if b2, fld, isF := facts.FieldOf(v); isF && (fld == "Token" || fld == "AccessToken") && tok == nil {
+							tok = facts.Resolve(b2)
+						}
+						return false
+					})
+					if tok == nil {
+						okAll, whyAll = false, "the cached token string does not come from the token server's response"
+						continue
+					}
+					if ok, why := tokenScopePaired(tok, facts.Resolve(pr.scopeV), acqT, 4); !ok {
+						okAll, whyAll = false, why
+					}
+				}
+				c.Check(okAll, "C10.R4", "acquireAccessToken/stored-scope", al.Pos(), "each cached token is recorded under the scope that was requested for it", whyAll)
 			}
 		}
 	}
